@@ -32,7 +32,7 @@ ASSUMPTIONS = ["construction failures (UBX*Error in every addressing form) are o
 
 def floors(tier):
     return {"route=kw": 1500, "route=payload": 1500, "route=config": 300, "built": 3000,
-            "addr-names": 2500, "odd-clsid": 100, "payload>4092": 20}
+            "addr-names": 2500, "odd-clsid": 100, "payload>4092": 20, "magic-checksum": 60, "after-other-class-string": 200}
 
 
 def plan(tier, seed):
@@ -122,6 +122,25 @@ def check(case) -> core.Out:
             kwargs["parsebitfield"] = case["bf"]
         forms = [("bytes", (clsid[0:1], clsid[1:2])), ("ints", (clsid[0], clsid[1]))]
         nm = names_for(clsid)
+        if nm and case.get("other_class") is not None:
+            # history: the same message *name* addressed with another class string
+            # first.  The documented lookup takes the class byte from the class name
+            # and the ID byte from the message name, so that call must equal the
+            # bytes form (other class, same ID) - and must not affect what follows.
+            oc = sorted(pyubx2.UBX_CLASSES)[case["other_class"] % len(pyubx2.UBX_CLASSES)]
+            ocn = pyubx2.UBX_CLASSES[oc]
+            if next(k for k, v in pyubx2.UBX_CLASSES.items() if v == ocn) == oc:
+                res = []
+                for a, b in ((ocn, nm[1]), (oc, clsid[1:2])):
+                    try:
+                        res.append(pyubx2.UBXMessage(a, b, 0, payload=b"\x00").serialize())
+                    except Exception as err:  # noqa
+                        res.append(type(err).__name__)
+                if res[0] != res[1]:
+                    out.viol.append((f"{PROP}|names|class-string-lookup",
+                                     f"UBXMessage({ocn!r}, {nm[1]!r}) gives {res[0]!r:.60} but the bytes form "
+                                     f"({oc.hex()}, {clsid[1:2].hex()}) gives {res[1]!r:.60}"))
+                out.classes.append("after-other-class-string")
         if nm:
             forms.append(("names", nm))
             out.classes.append("addr-names")
@@ -140,6 +159,8 @@ def check(case) -> core.Out:
             out.classes.append("refused")
             return out
     out.classes.append("built")
+    if case.get("magic"):
+        out.classes.append("magic-checksum")
     if case.get("long"):
         out.classes.append("payload>4092" if len(case["payload"]) < 65536 else "payload>=65536")
     ser = []
@@ -193,8 +214,9 @@ def run_shard(spec, ctx, acc):
                 acc.skipped["grammar"] += 1
                 continue
             base = {"kind": "build", "mode": t.mode, "clsid": t.clsid, "defname": t.defname}
-            pay = frames.payload_for(t, max_payload=3000 if tier == "quick" else 65535).map(
-                lambda pk: dict(base, route="payload", payload=pk[1]))
+            pay = st.tuples(frames.payload_for(t, max_payload=3000 if tier == "quick" else 65535),
+                            st.one_of(st.none(), st.none(), st.integers(0, 40))).map(
+                lambda t2: dict(base, route="payload", payload=t2[0][1], other_class=t2[1]))
             core.hyp_search(acc, pay, check, seed=core.derive(ctx["seed"], PROP, "p", t.label),
                             max_examples=n, known=known, rounds=2)
             if c16.kw_constructible(t):
@@ -223,6 +245,14 @@ def run_shard(spec, ctx, acc):
         core.hyp_search(acc, odd, check, seed=core.derive(ctx["seed"], PROP, "odd"),
                         max_examples=600 if tier == "quick" else 20000, known=known)
         acc.classes["odd-clsid"] += acc.evaluations - before
+        # frames whose checksum bytes look like a line terminator or a preamble
+        magic = st.builds(
+            lambda ck, p, target, mode: {"kind": "build", "mode": mode, "clsid": ck[1], "route": "payload", "defname": None,
+                                         "payload": codec.ubx_frame_with_checksum(ck[1][0:1], ck[1][1:2], p, target)[6:-2],
+                                         "magic": True},
+            frames.odd_clsid(), st.binary(max_size=16), st.sampled_from(codec.MAGIC_CHECKSUMS), st.just(0))
+        core.hyp_search(acc, magic, check, seed=core.derive(ctx["seed"], PROP, "magic"),
+                        max_examples=150 if tier == "quick" else 3000, known=known)
         # long payloads: beyond one 4096-byte block, and around the largest
         # length the 2-byte length field can express (a refusal is fine, a
         # malformed frame is not)
